@@ -37,6 +37,16 @@ Nested == { <<"nested-from", <<[m |-> "from_", src |-> "Q6"], [m |-> "select", t
             <<"having-or", <<From, Sel, [m |-> "groupby", terms |-> <<Fld("T1", "a")>>],
                              [m |-> "having", crit |-> [k |-> "bin", op |-> "OR", l |-> Gt([k |-> "call", f |-> "SUM", args |-> <<Fld("T1", "b")>>], Num("1")), r |-> Cmp(Fld("T1", "a"), Num("2"))]]>> >>,
             <<"distinct", <<From, Sel, [m |-> "distinct"]>> >>,
+            \* JOIN ON with a compound criterion (a bracket request of the embedding position must not reach it)
+            <<"join-on-and", <<From, [m |-> "join", item |-> "T2", how |-> "", kind |-> "on",
+                                      crit |-> [k |-> "bin", op |-> "AND", l |-> Cmp(Fld("T1", "a"), Fld("T2", "a")), r |-> Cmp(Fld("T1", "b"), Fld("T2", "b"))], cols |-> <<>>], Sel>> >>,
+            <<"join-on-or", <<From, [m |-> "join", item |-> "T2", how |-> "LEFT", kind |-> "on",
+                                     crit |-> [k |-> "bin", op |-> "OR", l |-> Cmp(Fld("T1", "a"), Fld("T2", "a")), r |-> Cmp(Fld("T1", "b"), Num("1"))], cols |-> <<>>], Sel>> >>,
+            <<"groupby-having-and", <<From, Sel, [m |-> "groupby", terms |-> <<Fld("T1", "a")>>],
+                                      [m |-> "having", crit |-> [k |-> "bin", op |-> "AND", l |-> Gt([k |-> "call", f |-> "SUM", args |-> <<Fld("T1", "b")>>], Num("1")), r |-> Cmp(Fld("T1", "a"), Num("2"))]]>> >>,
+            \* the inner statement is a set operation (the executor applies the last pseudo-call itself)
+            <<"setop-union", <<From, Sel, [m |-> "union_with", src |-> "T2"]>> >>,
+            <<"setop-union-ordered", <<From, Sel, [m |-> "union_with", src |-> "T2", orderby |-> TRUE]>> >>,
             <<"param-values", <<From, Sel, [m |-> "where", crit |-> Cmp(Fld("T1", "b"), Num("5"))], [m |-> "where", crit |-> Cmp(Fld("T1", "c"), [k |-> "str", n |-> "x"])]>> >> }
 \* data-modifying statements with RETURNING (PostgreSQL): bodies of a CTE only
 Dml == { <<"dml-insert-returning", <<[m |-> "into", src |-> "T1"], [m |-> "insert", row |-> <<Num("1"), Num("2")>>], [m |-> "returning", terms |-> <<Fld("T1", "a")>>]>> >>,
